@@ -66,6 +66,11 @@ CLAIMED = {
     design='5 C10',
     note='Trusted: real myokit model/expression classes, protocol stub = documented myokit.Protocol event semantics, z3. Outside: the integrator; dataset-derived regimens (pandas).',
     technique='symbolic execution over the myokit stub with symbolic protocol fields + SMT decisions; expression-tree translation of the modified right-hand sides'),
+ 'C11': dict(
+    text='Bounded exhaustive histories with symbolic data: every sequence of <= 2 (3) configuration calls (administration direct/indirect, two regimens with symbolic doses, output selections, renamings, sensitivities on/off, copy) on a PKPDModel over the myokit stub; the observables (names, counts, outputs, reported regimen, and simulate(p,t) as a term containing the protocol on the live simulator and the sensitivity request) are decided equal to a fresh model with only the net configuration; reported regimen = protocol on the live simulator; copies equal the original at copy time and stay unaffected.',
+    design='5 C11',
+    note='Trusted: myokit stub contract; the reference applies the same chi calls on a fresh model in canonical order (administration, regimen, outputs, renaming, sensitivities); documented resets (set_outputs / set_administration reset sensitivities; an output rename lives with the selected output). Known finding: renames lost when an administration rebuilds the name tables.',
+    technique='exhaustive bounded call histories executed symbolically over an uninterpreted-solver stub; term/SMT equality of observables'),
 }
 
 NOT_APPLICABLE = {
